@@ -3,7 +3,7 @@ source says.  Generated programs over every documented statement form are run
 on the real compiler + loader + VM against the simulated LAN with a recording
 clock and output sink; the reference interpreter (bvf/refmodel.py) consumes
 the recorded event log online and flags the first disagreement."""
-from bvf import gen, progcheck
+from bvf import runner, gen, progcheck
 
 ID = 'C01'
 MANIFEST = {
@@ -53,12 +53,61 @@ REQUIRED = ['st:setreg', 'st:action', 'st:get', 'st:wait', 'st:assign',
             'ev:newline']
 
 
+def big_population(rng):
+    n = rng.choice([100, 130, 150, 200, 300])
+    return [{'label': 'L{:03d}'.format(k), 'group': 'G{}'.format(k % 3),
+             'location': 'Hall' if k % 5 else 'Yard', 'kind': 'plain',
+             'color': [k, 2 * k, 3 * k, 2700], 'power': 0}
+            for k in range(n)]
+
+
+def big_program(rng, pop):
+    """scale, not shape: hundreds of lights in one iteration, recursion a few
+    hundred calls deep with a value pending at every level"""
+    depth = rng.choice([100, 150, 260, 300, 520, 600])
+    total = ['routine', 'total', ['n'], [
+        ['if', ['bin', '<=', ['var', 'n'], ['num', 0]],
+         [['return', ['num', 0]]], None],
+        ['return', ['bin', '+', ['var', 'n'],
+                    ['call', 'total', [['bin', '-', ['var', 'n'],
+                                        ['num', 1]]]]]]], True]
+    down = ['routine', 'down', ['n'], [
+        ['if', ['bin', '>', ['var', 'n'], ['num', 0]],
+         [['call', 'down', [['bin', '-', ['var', 'n'], ['num', 1]]], None]],
+         None],
+        ['print', ['var', 'n']]], True]
+    prog = [total, down,
+            ['repeat', 'all', {'lvar': 'each', 'with': None},
+             [['action', 'on', [['light', ['var', 'each']]]]]],
+            ['print', ['num', 1]],
+            ['repeat', 'in', {'lvar': 'item', 'with': None,
+                              'srcs': [['group', ['str', 'G1']],
+                                       ['location', ['str', 'Yard']]]},
+             [['action', 'off', [['light', ['var', 'item']]]]]],
+            ['print', ['call', 'total', [['num', depth]]]],
+            ['call', 'down', [['num', min(depth, 150)]], None],
+            ['action', 'on', [['group', ['str', 'G2']]]],
+            ['print', ['num', 2]]]
+    rng.shuffle(prog[2:])
+    return prog, {'big-population', 'deep-recursion'}, []
+
+
 def run_shard(ctx):
     n = N[ctx.tier]
     for i in range(ctx.shard, n, ctx.nshards):
-        out = progcheck.one_case(ctx, i, PROFILE, 'c01')
+        big = i % 250 == 77
+        runner.VIA_FILE[0] = i % 6 == 3
+        try:
+            out = progcheck.one_case(
+                ctx, i, PROFILE, 'c01',
+                pop_fn=big_population if big else None,
+                prog_fn=big_program if big else None)
+        finally:
+            runner.VIA_FILE[0] = False
         if out is None:
             continue
+        if i % 6 == 3:
+            ctx.count('compiled_from_a_script_file')
         ok = progcheck.account(ctx, out, 'c01', min_events=3)
         if ok and i % 1000 < ctx.nshards:
             ctx.sample({'script': out.text[:400], 'population':
